@@ -124,6 +124,12 @@ func init() {
 			}
 		})
 		e["panic"] = p
+		var bad uu.InvalidDigitError
+		if errors.As(err, &bad) {
+			e["baddigit"] = int(byte(bad))
+		} else {
+			e["baddigit"] = -1
+		}
 		e["ok"] = err == nil && !p
 		e["v"] = nibbles(id)
 		e["typed"] = err != nil && uuTyped(err)
